@@ -25,7 +25,6 @@ func FuncSpec(fn *ssa.Function, off, err, boolIdx, extra int) *Spec {
 	return &Spec{Fn: fn, OffsetIdx: off, ErrIdx: err, BoolIdx: boolIdx, ExtraIdx: extra}
 }
 
-
 // LastSliceEntry binds the LAST []byte parameter as the whole input (handler methods: HandleObjectValue(key, data)).
 func LastSliceEntry(e *Engine, c *Config, f *Frame) {
 	m0 := c.markAt(0)
